@@ -187,6 +187,12 @@ func c02sameObj(a, b ssa.Value) bool {
 	if a == b {
 		return true
 	}
+	// the address of the same field of the same object (a buffer kept by value in a struct: every `u.buf.M()` computes
+	// &u.buf anew)
+	if fa, isFA := a.(*ssa.FieldAddr); isFA {
+		fb, isFB := b.(*ssa.FieldAddr)
+		return isFB && fa.Field == fb.Field && c02sameObj(fa.X, fb.X)
+	}
 	ua, ok1 := a.(*ssa.UnOp)
 	ub, ok2 := b.(*ssa.UnOp)
 	if !ok1 || !ok2 || ua.Op != token.MUL || ub.Op != token.MUL {
@@ -233,6 +239,11 @@ func c02argIndex(cc *ssa.CallCommon, buf ssa.Value) []int {
 // c02empties: instruction i leaves the reader buf empty - Reset / Truncate(0) on it, or a static call of a repository
 // helper that does so with the corresponding parameter on all of its paths.
 func c02empties(i ssa.Instruction, buf ssa.Value, depth int) bool {
+	if st, isSt := i.(*ssa.Store); isSt {
+		// *buf = bytes.Buffer{}: the whole reader is replaced by its zero value
+		k, isK := st.Val.(*ssa.Const)
+		return isK && k.Value == nil && c02sameObj(st.Addr, buf)
+	}
 	ci, ok := i.(ssa.CallInstruction)
 	if !ok || ci.Common().IsInvoke() {
 		return false
@@ -481,7 +492,7 @@ func c02globalRoot(v ssa.Value, depth int) *ssa.Global {
 			if fn == nil || k < 0 || depth > 2 {
 				return nil
 			}
-			for _, s := range gSites[fn] {
+			for _, s := range c02sites(fn) {
 				if args := s.Common().Args; k < len(args) && s.Parent() != fn {
 					if g := c02globalRoot(args[k], depth+1); g != nil {
 						return g
@@ -605,7 +616,7 @@ func (x *c02pubs) underLock(at ssa.Instruction, write bool, depth int) bool {
 	if depth > 2 || !x.onlyStatic(f) {
 		return false
 	}
-	sites := gSites[f]
+	sites := c02sites(f)
 	if f.Parent() != nil {
 		// a closure: where it is called in its maker
 		sites = nil
@@ -636,7 +647,7 @@ func runC02P10(c *Ctx) {
 	// definitions (they are called with the same texts from the same goroutines)
 	home := rootPkg(x.ctors[0])
 	entries := append([]*ssa.Function{}, x.ctors...)
-	for _, f := range c.AllFns {
+	for _, f := range c02fns(c) {
 		if rootPkg(f) != home || f.Parent() != nil || f.Signature.Recv() != nil || !token.IsExported(f.Name()) || x.isCtor(f) {
 			continue
 		}
@@ -658,7 +669,7 @@ func runC02P10(c *Ctx) {
 	// who builds tables: the distinct functions outside the package that call an entry
 	callers := map[string]bool{}
 	for _, e := range entries {
-		for _, s := range gSites[e] {
+		for _, s := range c02sites(e) {
 			if rootPkg(s.Parent()) != home {
 				callers[fnKey(s.Parent())] = true
 			}
@@ -671,7 +682,7 @@ func runC02P10(c *Ctx) {
 	sort.Strings(callerNames)
 	c.atLeast("C02.P10", "functions outside package route that build tables or parse route texts", len(callers), 2)
 
-	reach := c.reach(entries...)
+	reach := c.c02reach(entries...)
 	var fns []*ssa.Function
 	for f := range reach {
 		if isRepoFn(f) && len(f.Blocks) > 0 && !x.initLike(f, 0) {
@@ -683,7 +694,7 @@ func runC02P10(c *Ctx) {
 
 	// package-level maps whose content changes after initialisation (anywhere in the repository)
 	mutated := map[*ssa.Global]bool{}
-	for _, f := range c.AllFns {
+	for _, f := range c02fns(c) {
 		if x.initLike(f, 0) {
 			continue
 		}
